@@ -8,6 +8,7 @@ import (
 	"fmt"
 	"math"
 	"math/big"
+	"reflect"
 	"strconv"
 	"strings"
 	"testing"
@@ -237,7 +238,45 @@ type KVCase struct {
 	UseNumber bool   `json:"use_number,omitempty"`
 }
 
+// equidistantDoc builds an array holding two objects whose addresses lie at the same distance on
+// opposite sides of the array's own address (nil if the allocator does not hand out such a layout).
+func equidistantDoc() []any {
+	addr := func(v any) uintptr { return reflect.ValueOf(v).Pointer() }
+	var maps []map[string]any
+	var arrs [][]any
+	byAddr := map[uintptr]map[string]any{}
+	for round := 0; round < 50; round++ {
+		for i := 0; i < 64; i++ {
+			m := make(map[string]any)
+			a := make([]any, 3)
+			maps, arrs = append(maps, m), append(arrs, a)
+			byAddr[addr(m)] = m
+		}
+		for _, a := range arrs {
+			aa := addr(a)
+			for _, m := range maps {
+				ma := addr(m)
+				if other, ok := byAddr[2*aa-ma]; ok && ma != 2*aa-ma {
+					m["k"], other["l"] = float64(1), float64(2)
+					a[0], a[1], a[2] = m, other, float64(3)
+					return a
+				}
+			}
+		}
+	}
+	return nil
+}
+
 func init() {
+	quirkProbes["keyvalue_id_equidistant_collision"] = func() bool {
+		p, err, _ := ParseSafe("strict $[0, 1].keyvalue().id")
+		doc := equidistantDoc()
+		if err != nil || doc == nil {
+			return false
+		}
+		o := RunQuery(context.Background(), p, doc)
+		return o.Class == EOK && len(o.Items) == 2 && Render(o.Items[0], false) == Render(o.Items[1], false)
+	}
 	quirkProbes["chained_keyvalue_ids_unstable"] = func() bool {
 		p, err, _ := ParseSafe("$.keyvalue().value.keyvalue()")
 		if err != nil {
@@ -257,6 +296,73 @@ func init() {
 }
 
 var c16Ev *Ev
+
+// equidistantObjects reports whether two different objects of doc lie at the same distance
+// (in memory) from one of the base containers: the input class of open finding D34 - the id of
+// an object is the absolute distance of its address from the base object, so two objects on
+// opposite sides of the base at equal distance receive the same id.
+func equidistantObjects(doc any, bases ...any) bool {
+	addr := func(v any) (uintptr, bool) {
+		switch v.(type) {
+		case map[string]any, []any, exec.Vars:
+			return reflect.ValueOf(v).Pointer(), true
+		}
+		return 0, false
+	}
+	var objs []uintptr
+	var walk func(v any)
+	walk = func(v any) {
+		switch x := v.(type) {
+		case map[string]any:
+			if a, ok := addr(x); ok {
+				objs = append(objs, a)
+			}
+			for _, e := range x {
+				walk(e)
+			}
+		case []any:
+			for _, e := range x {
+				walk(e)
+			}
+		}
+	}
+	walk(doc)
+	for _, b := range bases {
+		ba, ok := addr(b)
+		if !ok {
+			continue
+		}
+		seen := map[uintptr]uintptr{}
+		for _, a := range objs {
+			d := a - ba
+			if a < ba {
+				d = ba - a
+			}
+			if prev, dup := seen[d]; dup && prev != a {
+				return true
+			}
+			seen[d] = a
+		}
+	}
+	return false
+}
+
+// kvCollisionKnown: a duplicate id between two objects is open finding D34 when the document
+// really contains two objects equidistant from a base object (and the finding still reproduces).
+func kvCollisionKnown(doc any, bases ...any) bool {
+	if !equidistantObjects(doc, bases...) {
+		return false
+	}
+	ev := c16Ev
+	if ev == nil {
+		ev = &Ev{Prop: "C16"}
+	}
+	if ev.quirk("keyvalue_id_equidistant_collision") {
+		ev.KFCase("D34")
+		return true
+	}
+	return false
+}
 
 var checkKeyvalue = register("c16.keyvalue", func(c KVCase) *Violation {
 	p, err, pan := ParseSafe(c.Path)
@@ -297,6 +403,9 @@ var checkKeyvalue = register("c16.keyvalue", func(c KVCase) *Violation {
 		}
 		k, _ := t["key"].(string)
 		if _, dup := g.keys[k]; dup {
+			if kvCollisionKnown(doc, doc, vars) {
+				return nil
+			}
 			return violf("%q on %s: two triples with id %s and key %q", c.Path, c.Doc, id, k)
 		}
 		g.keys[k] = Render(t["value"], false)
@@ -378,6 +487,9 @@ func checkKVDistinct(doc any, docText string) *Violation {
 		}
 		if id != "" {
 			if prev, dup := seen[id]; dup {
+				if kvCollisionKnown(doc, doc) {
+					return nil
+				}
 				return violf("$[*].keyvalue() on %s: distinct objects %d and %d share id %s", docText, prev, oi, id)
 			}
 			seen[id] = oi
@@ -495,6 +607,7 @@ func TestC16(t *testing.T) {
 	ev := newEv(t, "C16")
 	c16Ev = ev
 	ev.replayTier(t)
+	_ = ev.quirk("keyvalue_id_equidistant_collision") // prints the KNOWN-FINDING line while the finding reproduces
 	t.Run("grid", func(t *testing.T) {
 		b := ev.enum(t)
 		cs := methodGrid()
